@@ -71,6 +71,7 @@ pub struct Gen {
     pub last_stack: Option<(Vec<LayerSpec>, CostKind)>,
     /// thorough tier: allow the deepest chains
     pub deep: bool,
+    pub last_batch: Option<(Vec<usize>, Vec<f64>)>,
 }
 
 const V_ADD: u8 = 0;
@@ -144,7 +145,7 @@ impl Gen {
         }
         let max_events = p.max_events / 2 + rng.below(p.max_events / 2 + 1);
         let faults_enabled = [rng.chance(3, 4), rng.chance(3, 4), rng.chance(3, 4), rng.chance(3, 4)];
-        Gen { rng, p, regime, queue: VecDeque::new(), next_slot: 0, emitted: 0, max_events, actors, vocab, base_dims, last_actor: "", faults_enabled, actor_log: Vec::new(), trains_left: 2, train_kind_conv: false, last_stack: None, deep: false }
+        Gen { rng, p, regime, queue: VecDeque::new(), next_slot: 0, emitted: 0, max_events, actors, vocab, base_dims, last_actor: "", faults_enabled, actor_log: Vec::new(), trains_left: 2, train_kind_conv: false, last_stack: None, deep: false, last_batch: None }
     }
 
     fn fresh_slot(&mut self) -> Slot {
@@ -301,7 +302,8 @@ impl Gen {
         if self.rng.chance(self.p.reent_pct, 100) {
             let n = 1 + self.rng.below(2);
             for _ in 0..n {
-                let r = match self.rng.below(4) {
+                let r = match self.rng.below(5) {
+                    4 => Reent::DebugFormat,
                     0 => Reent::FwdOnChildren,
                     1 => Reent::ReadGrad(self.any_live(sim).unwrap_or(0)),
                     2 => Reent::CloneDrop(self.any_live(sim).unwrap_or(0)),
@@ -744,6 +746,23 @@ impl Gen {
 
     fn batch_for(&mut self, sim: &Sim) -> Option<(Vec<usize>, Vec<f64>)> {
         let first = sim.train_first_layer.as_ref()?;
+        // sometimes exactly the previous batch again
+        if let Some(b) = &self.last_batch {
+            let fits = match first {
+                LayerSpec::Dense { inp, .. } => b.0.last() == Some(inp),
+                LayerSpec::Conv { depth, .. } => b.0.len() >= 3 && b.0[b.0.len() - 3] == *depth,
+            };
+            if fits && self.rng.chance(15, 100) {
+                return Some(b.clone());
+            }
+        }
+        let r = self.batch_fresh(first.clone());
+        self.last_batch = r.clone();
+        r
+    }
+
+    fn batch_fresh(&mut self, first: LayerSpec) -> Option<(Vec<usize>, Vec<f64>)> {
+        let first = &first;
         let dims = match first {
             LayerSpec::Dense { inp, .. } => match self.rng.weighted(&[25, 25, 50]) {
                 0 => vec![*inp],
@@ -822,8 +841,11 @@ impl Gen {
                         Some(d) => d.clone(),
                         None => return vec![],
                     };
-                    // sometimes one target row broadcast against the whole batch
-                    let od = if od.len() >= 2 && od[0] > 1 && self.rng.chance(15, 100) {
+                    // sometimes one target row broadcast against the whole batch, or a flat target against a
+                    // column output (which broadcasts to an outer difference)
+                    let od = if od.len() == 2 && od[0] > 1 && od[1] == 1 && self.rng.chance(15, 100) {
+                        vec![od[0]]
+                    } else if od.len() >= 2 && od[0] > 1 && self.rng.chance(15, 100) {
                         if self.rng.chance(1, 2) {
                             od[1..].to_vec()
                         } else {
